@@ -194,6 +194,17 @@ def gen(tier, rng):
                 lines.append("%d %s" % (ln, gen_print(rng, t2)))
                 ln += 10
             out, term = t2.out, t2
+        elif rng.random() < 0.18:
+            # trace mode: the marker [n] printed when a new line is entered is output like any other and moves the column,
+            # so zones, TAB and POS behind it on the same output line count it
+            t3 = Term()
+            lines, inputs = ["5 TRON"], []
+            ln = 10
+            for _ in range(rng.randint(2, 6)):
+                t3.put("[%d]" % ln)
+                lines.append("%d %s" % (ln, gen_print(rng, t3)))
+                ln += 10
+            out, term = t3.out, t3
         calls = ["R5000"] + [sess.E(l) for l in lines] + [sess.E(run), "R5000"] + ["A5000:" + sess.hx(r) for r in inputs]
         cases.append(Case(sess.session(calls), sig="\n".join(lines) + ("\n#typed: " + run if run != "RUN" else ""), tag="layout",
                           meta=("layout", out, term.col)))
